@@ -232,6 +232,10 @@ let () =
         if f.(5) <> "present" then mismatch id "function-only-in-GenApi"
         else if not (V.func_closed_ok fn) then
           specfail id (Printf.sprintf "exported_constructor_not_reviewed:%s:%s" (qual pkg recv name) f.(6))
+        else if not (V.func_safe_params_ok fn) then
+          specfail id (Printf.sprintf "trusted_parameter_has_a_type_clients_can_implement:%s" (qual pkg recv name))
+        else if not (V.func_not_mutator_ok fn) then
+          specfail id (Printf.sprintf "safe_type_has_a_pointer_receiver_method:%s" (qual pkg recv name))
         else ok id (if V.yields_tracked fn then "+reviewed_constructor" else "no_trusted_result"));
 
   (* apitype id pkg name | present/absent *)
